@@ -69,5 +69,11 @@ CHECKS = {
                      "the principal, both home sets and (with defaults or a pre-existing tree) a calendar and an address book of the right types, reached collections the user created "
                      "earlier, and after every restart all collections, member bodies and properties were unchanged.",
                 note="Trusted: harness href resolution (urljoin); vf/wsgihost.py as a model of a prefix-mounting WSGI deployment with WellknownRedirector."),
+    "C13": dict(level="exploration", design="DESIGN.md section 4 C13",
+                technique="runtime monitoring: audit-hook file-system access monitor inside the server (every open/listdir/scandir/mkdir/rename/remove/rmtree/Popen event judged against the data root), strace as second observer (thorough), before/after snapshot of the surroundings and canary tokens, under an adversarial request-target grammar",
+                text="Held on the generated requests: none of the tens of thousands of adversarial targets (all methods, both front ends, raw sockets / un-normalised PATH_INFO, hrefs inside "
+                     "REPORT bodies) made the server create, modify, delete, list or read anything that resolves outside the data root (static allow-list: interpreter, packages, "
+                     "HOME, TMPDIR), the surroundings' snapshot was unchanged and no canary content appeared in a response.",
+                note="Trusted: CPython audit events cover the file-system calls the code makes (strace cross-checks this in the thorough tier); stat-only probes are not judged."),
 }
 NOT_APPLICABLE = {}
